@@ -659,12 +659,20 @@ class World:
                 self.handles.pop(e["h"]).close()
             elif op == "hdrop":
                 # the object is released without close(): the last reference goes, the collector runs
+                # (the cycle collector is run only if dropping the last reference did not destroy the object: a full
+                # collection walks the whole heap of the check, which is large)
                 import gc
+                import weakref
                 self.hpath.pop(e["h"], None)
-                self.handles.pop(e["h"])
+                obj = self.handles.pop(e["h"])
                 self.objects.pop(e["h"], None)
-                obj = None      # noqa
-                gc.collect()
+                try:
+                    alive = weakref.ref(obj)
+                except TypeError:
+                    alive = None
+                del obj
+                if alive is None or alive() is not None:
+                    gc.collect()
             elif op in ("write", "append"):
                 path = self.names[e["p"]]
                 if op == "append" and before[e["p"]]:
